@@ -489,6 +489,10 @@ def _freeze(v, depth=0):
         return (type(v).__name__, [_freeze(x, depth + 1) for x in v])
     if isinstance(v, (set, frozenset)):
         return ('set', sorted(repr(_freeze(x, depth + 1)) for x in v))
+    if type(v).__repr__ is object.__repr__ and depth < 6:
+        # no value-based repr (query_env.Row ...): the attributes, not the address
+        names = list(getattr(v, '__dict__', {})) + [n for c in type(v).__mro__ for n in getattr(c, '__slots__', ())]
+        return ('object', type(v).__name__, [(n, _freeze(getattr(v, n, None), depth + 1)) for n in sorted(set(names))])
     return repr(v)
 
 
@@ -501,7 +505,7 @@ def table_fingerprint(conn):
         for k, v in sorted(getattr(t, '__dict__', {}).items()):
             d['attr:' + k] = _freeze(v)
         try:
-            d['rows'] = [repr(r) for r in t]
+            d['rows'] = [_freeze(r) for r in t]
         except Exception as e:  # noqa: BLE001
             d['rows'] = 'iteration raises ' + type(e).__name__
         fp[name or '(default)'] = d
